@@ -131,7 +131,7 @@ def run(seed, tier, lean) -> Result:
                       '(defense values -0.1/0/0.25/0.5/1/1.0001, wrong / sibling / super types, maxItems+1, repeated asset, existing link, removed '
                       'asset) with accept/reject and resulting state compared; the real model is scanned after every step for anything that must '
                       'have been rejected; non-trivial = an attempt involving an inherited defense, a subtype member or a duplicate-named association')
-    n = 250 if tier == 'quick' else 10000
+    n = 250 if tier == 'quick' else 1500
     cases = []
     for i in range(n):
         r = random.Random(rnd.getrandbits(48))
